@@ -123,6 +123,27 @@ Theorem C15_test_int_exact : forall fo kl k kl' k' x y,
 Proof. exact test_int_exact. Qed.
 Print Assumptions C15_test_int_exact.
 
+(* `copy`: the copied tree (jbn_clone in the model: structural recursion, any depth) denotes the value of its source and
+   satisfies the invariant ... *)
+Theorem C15_clone_is_value_copy : forall n, klidx_inv n ->
+  klidx_inv (clone n) /\ val (clone n) = val n /\ n_ty (clone n) = n_ty n.
+Proof. intros n H. destruct (clone_spec n H) as [A [B [C _]]]. auto. Qed.
+Print Assumptions C15_clone_is_value_copy.
+
+(* ... and after a `copy` that the RFC applies, reading `path` (rfc6901, strict) in the resulting document gives exactly the
+   value that was at `from` before.  Hypothesis `last segment is not "-"`: the appended position has no pointer of its own.
+   Not stated here: "the source is unchanged" in general (false when `path` is a prefix of `from` or shifts array items in
+   front of it); the whole-document result, source included, is the RFC one by C15_patch_single_op_rfc_partial. *)
+Theorem C15_copy_value_partial : forall fo t o f dv x d',
+  klidx_inv t -> op_good o -> no_root_alias (sop_of o) -> p_op o = OCopy -> p_from o = Some f ->
+  doc_val t = Some dv -> jget strict dv f = Some x ->
+  rfc_op strict (f_eq fo) (doc_val t) (sop_of o) = Some d' ->
+  s_is_dash (last (p_path o) []) = false ->
+  fst (apply_op fo t o) = RcOk /\ klidx_inv (snd (apply_op fo t o)) /\
+  exists v', doc_val (snd (apply_op fo t o)) = Some v' /\ jget strict v' (p_path o) = Some x.
+Proof. exact copy_value. Qed.
+Print Assumptions C15_copy_value_partial.
+
 (* any error => the binary document is exactly the one passed in (for every conversion pair dec/enc) *)
 Theorem C15_failed_patch_leaves_binary :
   forall (B : Type) (dec : B -> node) (enc : node -> option B) (empty : B) fo b l,
@@ -209,3 +230,17 @@ Example C15_ex_test_2pow32 :
   patch_binary node (fun b => b) (fun n => Some n) zero_node ex_fo doc [t2; rm] = (RcTestFailed, doc) /\
   jeq Z.eqb (JI64 8589934594) (JI64 2) = false.
 Proof. cbv zeta. split; [apply of_val_inv1 | split; [apply of_val_good | repeat split; reflexivity]]. Qed.
+
+(* copy of {"a":{"b":{"c":1}},"d":2} (two levels close before "d"): /dst reads the source value, /src still does
+   (seeded change round3/C15 gave dst = {"a":{"b":{"c":1},"d":2}}) *)
+Example C15_ex_copy_deep :
+  let sv := JObj [([97], JObj [([98], JObj [([99], JI64 1)])]); ([100], JI64 2)] in
+  let t := of_val 0 [] (JObj [([115;114;99], sv)]) in
+  let o := {| p_op := OCopy; p_path := [[100;115;116]]; p_from := Some [[115;114;99]]; p_val := None |} in
+  klidx_inv t /\ op_good o /\ no_root_alias (sop_of o) /\ jget strict (val t) [[115;114;99]] = Some sv /\
+  fst (apply_op ex_fo t o) = RcOk /\
+  doc_val (snd (apply_op ex_fo t o)) = Some (JObj [([115;114;99], sv); ([100;115;116], sv)]).
+Proof.
+  cbv zeta. split; [apply of_val_inv1|]. split; [intros v H; discriminate|].
+  split; [split; [discriminate | intros _; discriminate]|]. repeat split; reflexivity.
+Qed.
